@@ -237,6 +237,10 @@ def jobs(tier, seed):
             chks = [dict(name="%s %s %s" % (sbx, kind, tag), fn=check_entry, kw=dict(kind=kind, tag=tag, log=log))
                     for tag in grp for kind in ("assign", "accept", "assignvol", "assignslot")]
             out.append(Job("C02_%s_%d" % (sbx, gi), src, chks))
+    # B32Z: guard zones that are neither sandbox nor application memory - only "inside this sandbox" admits an address
+    zsrc = '#include "verif_sandbox.hpp"\nusing S = B32Z;\n#include "C02_kernels.inc"\n'
+    out.append(Job("C02_B32Z", zsrc, [dict(name="B32Z %s %s (guard zones)" % (kind, tag), fn=check_entry, kw=dict(kind=kind, tag=tag, log=32))
+                                      for tag in ("int", "char") for kind in ("assign", "accept", "assignvol")], native=False))
     out.append(Job("C02_B32_mi", '#include "verif_sandbox.hpp"\nusing S = B32;\n#include "C02_kernels.inc"\n',
                    [dict(name="B32 " + k, fn=check_mi, kw=dict(k=k)) for k in ("k_assign_mi", "k_assignvol_mi")], native=False))
     for sbx, pb in (("B32", 4), ("B64", 8)):
